@@ -9,6 +9,7 @@ C14 — abandoned or rejected writes leave no trace in the index or temp area.
   ok (C08): data becomes reachable under a key only through a commit that passed its checks.
 -/
 import Cacache.Props.C08
+import Cacache.Lemmas.CacheRefine
 
 namespace Cacache.C14
 open Prog
@@ -80,5 +81,32 @@ theorem only_commit_maps (env : Env) (fs : FS) (w : Writer) (hw : w.Ok)
     (hr : C08.Rejected (run env (wcommit cfg w) fs).1) (q : Path) (hq : InArea w.cache dIndex q) :
     (run env (wcommit cfg w) fs).2.1.get q = fs.get q :=
   C08.rejected_commit_maps_nothing cfg env fs w hw hr q hq
+
+/-! ### total correctness of a rejected commit -/
+
+open CacheRefine Refine in
+/-- **A keyed write whose declared size is wrong, from any healthy cache** (any flavour, any
+chunking, any options without a declared integrity): the healthy run answers exactly the
+size-mismatch error; the abstract index is unchanged — *every* lookup of *every* key answers as
+before, and so does every listing; the cache is healthy again (so everything that worked still
+works); and nothing of the writer is left in `tmp`: its temp file is gone, every other entry of
+`tmp` is as it was.  (Its content is published by address, which no lookup or listing shows.) -/
+theorem rejected_commit_changes_no_lookup (env : Env) (cache : Path) (fl : Flavour) (key : Bytes) (o : WriteOpts)
+    (chunks : List Bytes) (fs : FS) (h : Healthy cfg cache fs) (hl : HexLen cfg) (hw : PutWF key o chunks)
+    (n : Nat) (hn : o.size = some n) (hne : n ≠ chunks.flatten.length) :
+    (run env (writeStream cfg cache fl (some key) o chunks) fs).1 = .error (.size n chunks.flatten.length) ∧
+    (absCache cfg cache (run env (writeStream cfg cache fl (some key) o chunks) fs).2.1).index =
+      (absCache cfg cache fs).index ∧
+    Healthy cfg cache (run env (writeStream cfg cache fl (some key) o chunks) fs).2.1 ∧
+    TmpClean cache fs (run env (writeStream cfg cache fl (some key) o chunks) fs).2.1 := by
+  obtain ⟨h1, h2, h3, h4⟩ := run_putKeyed cfg cache env fl key o chunks fs h hl hw
+  have hd : declCheck o chunks.flatten.length (Sri.compute cfg.H (o.algo.getD .sha256) chunks.flatten) =
+      .error (.size n chunks.flatten.length) := by
+    rw [declCheck_none hw.nosri, hn]
+    show (if n ≠ chunks.flatten.length then _ else _) = _
+    rw [if_pos hne]
+  refine ⟨?_, ?_, h3, h4⟩
+  · rw [h1]; unfold putSpec; rw [hd]
+  · rw [h2]; unfold putSpec; rw [hd]
 
 end Cacache.C14
